@@ -10,7 +10,7 @@ def mk(n, vl, cb, ca, d, c, tiers):
     return Job(name, ["C07", "C10", "C14", "C04"], "harness/writer.c", sources=["lib/libeconf.c", "lib/helpers.c"],
                stubs=["stubs/writer_tok.c", "stubs/snprintf_real.c", "stubs/str_extra.c", "stubs/strdup_packed.c"],
                contracts=["contracts/bufsiz_small.h", "stubs/asprintf_shim.h"], unwind=14,
-               post_unwindset={"econf_writeFile@1": 3, "econf_writeFile@2": n + 1, "econf_writeFile@3": 7, "econf_writeFile@4": 7},
+               post_unwindset={"econf_writeFile@1": 3, "econf_writeFile@2": n + 1, "econf_writeFile@3": 8, "econf_writeFile@4": 8},
                tier="T2", defines=defs, tiers=tiers, timeout=1500, mem_gb=12, nobody_ok=[".*"],
                functions=["econf_writeFile", "addbrackets", "combine_strings"],
                bounds="%d entries (section, key, quote flag symbolic); value lengths %s, comment-before lengths %s, "
